@@ -119,6 +119,26 @@ type event struct {
 	at int    // virtual ms
 	op string // call arrive open pump setrd setwd setd setld close rerr werr conn lclose lerr
 	a  int    // caller index / count / deadline (0 = zero time)
+	b  int    // call of a reader: len of the Read buffer (0 = 64)
+	sz []int  // arrive: sizes of the messages in the datagram (nil = a messages of 8 bytes)
+}
+
+func (e event) sizes() []int {
+	if e.sz != nil || e.op != "arrive" {
+		return e.sz
+	}
+	out := make([]int, e.a)
+	for i := range out {
+		out[i] = 8
+	}
+	return out
+}
+
+func (e event) buflen() int {
+	if e.b == 0 {
+		return 64
+	}
+	return e.b
 }
 
 type schedule struct {
@@ -133,7 +153,14 @@ func (sc *schedule) String() string {
 	var sb strings.Builder
 	fmt.Fprintf(&sb, "%s kinds=%s wnd=%d infl=%d:", sc.family, string(sc.kinds), sc.wnd, sc.infl)
 	for _, e := range sc.evs {
-		fmt.Fprintf(&sb, " @%d %s %d;", e.at, e.op, e.a)
+		switch {
+		case e.op == "arrive":
+			fmt.Fprintf(&sb, " @%d arrive %v;", e.at, e.sizes())
+		case e.op == "call" && e.a < len(sc.kinds) && sc.kinds[e.a] == 'r':
+			fmt.Fprintf(&sb, " @%d call %d buf=%d;", e.at, e.a, e.buflen())
+		default:
+			fmt.Fprintf(&sb, " @%d %s %d;", e.at, e.op, e.a)
+		}
 	}
 	return sb.String()
 }
@@ -146,6 +173,7 @@ type caller struct {
 	done   atomic.Bool
 	ret    string
 	at     int64
+	n      int // bytes a successful Read returned
 	// facts about the current call, for classifying violations
 	startAt       int
 	cellAtStart   int  // deadline cell when the call started (0 = none)
@@ -153,6 +181,7 @@ type caller struct {
 	afterClose    bool // the call started after Close / listener Close
 	dataAtCall    bool
 	soleAtCall    bool
+	startSeq      int  // x.seq when the call started
 	multiAtChange bool // ≥ 2 callers of this kind were blocked at the last deadline change
 	changedAt     int  // instant of the last deadline change seen by this call (-1 none)
 }
@@ -174,6 +203,8 @@ type runner struct {
 	rcell   int // deadline cells as last stored by the harness (0 = zero time)
 	wcell   int
 	lcell   int
+	seq     int            // events performed so far
+	chgSeq  map[byte]int   // per kind: seq of the last deadline change
 	rchg    int // instant of last change
 	wchg    int
 	lchg    int
@@ -257,17 +288,22 @@ func (x *runner) collect() (returned int) {
 		c.active = false
 		returned++
 		x.o.Count(fmt.Sprintf("ret:%c:%s", c.kind, strings.SplitN(c.ret, ":", 2)[0]))
-		x.op(fmt.Sprintf("ret %d %d %s", i, c.at, c.ret), "ok")
+		x.op(fmt.Sprintf("ret %d %d %s %d", i, c.at, c.ret, c.n), "ok")
 		cell, chg := x.cellOf(c.kind)
 		switch {
 		case strings.HasPrefix(c.ret, "other:"):
 			x.viol("wait-unexpected-error", fmt.Sprintf("caller %d (%c) returned %q", i, c.kind, c.ret))
 		case c.ret == "timeout":
-			// never before the deadline in force (a change at this very instant races legitimately)
-			if chg != int(c.at) && (cell == 0 || int(c.at) < cell) {
+			// never before the deadline in force
+			// (a change at the very instant of the return races legitimately, but only if it
+			// happened while this call was running)
+			raced := chg == int(c.at) && x.chgSeq[c.kind] > c.startSeq
+			if !raced && (cell == 0 || int(c.at) < cell) {
 				kind := "wait-timeout-early"
-				if c.kind == 'a' {
-					kind = "wait-accept-deadline"
+				if c.kind == 'a' && x.chgSeq['a'] > c.startSeq {
+					kind = "wait-accept-deadline" // D8: changed while Accept was blocked
+				} else if c.kind == 'a' {
+					kind = "wait-accept-early-timeout" // the value read at entry was not honoured
 				} else if c.multiAtChange {
 					kind = "wait-multi-deadline"
 				}
@@ -334,8 +370,10 @@ func (x *runner) stuck(afterOp string, returned int) {
 		if cell != 0 && now >= cell {
 			kind := "wait-deadline-missed"
 			switch {
+			case c.kind == 'a' && x.chgSeq['a'] > c.startSeq:
+				kind = "wait-accept-deadline" // D8
 			case c.kind == 'a':
-				kind = "wait-accept-deadline"
+				kind = "wait-accept-deadline-missed"
 			case c.multiAtChange:
 				kind = "wait-multi-deadline"
 			case c.clearedInCall:
@@ -372,9 +410,11 @@ func (x *runner) noteChange(k byte, v int) {
 	}
 }
 
-func (x *runner) startCall(i int) {
+func (x *runner) startCall(i int, buflen int) {
 	c := x.cs[i]
 	c.active = true
+	c.n = 0
+	c.startSeq = x.seq
 	c.done.Store(false)
 	c.startAt = x.nowMs()
 	c.cellAtStart, _ = x.cellOf(c.kind)
@@ -394,8 +434,9 @@ func (x *runner) startCall(i int) {
 	switch c.kind {
 	case 'r':
 		go func() {
-			buf := make([]byte, 64)
-			_, err := x.s.Read(buf)
+			buf := make([]byte, buflen)
+			n, err := x.s.Read(buf)
+			c.n = n
 			c.ret, c.at = errKind(err), int64(time.Since(t0)/time.Millisecond)
 			c.done.Store(true)
 		}()
@@ -428,14 +469,19 @@ func (x *runner) do(e event) (line, obs string) {
 		if e.a >= len(x.cs) || x.cs[e.a].active {
 			return "", ""
 		}
-		x.startCall(e.a)
-		return fmt.Sprintf("call %d", e.a), obs
+		bl := 0
+		if x.cs[e.a].kind == 'r' {
+			bl = e.buflen()
+		}
+		x.startCall(e.a, bl)
+		return fmt.Sprintf("call %d %d", e.a, bl), obs
 	case "arrive":
 		if x.s == nil || x.closed || x.rerr {
 			return "", ""
 		}
 		var b []byte
-		if e.a == 0 {
+		szs := e.sizes()
+		if len(szs) == 0 {
 			// a duplicate (or, before any data, a bare acknowledgement): nothing new is readable
 			if x.nextSn > 0 {
 				b = seg(conv, kcp.IKCP_CMD_PUSH, x.nextSn-1, x.acked, []byte("dup"))
@@ -443,12 +489,16 @@ func (x *runner) do(e event) (line, obs string) {
 				b = seg(conv, kcp.IKCP_CMD_WINS, 0, x.acked, nil)
 			}
 		}
-		for k := 0; k < e.a; k++ {
-			b = append(b, seg(conv, kcp.IKCP_CMD_PUSH, x.nextSn, x.acked, []byte(fmt.Sprintf("msg%05d", x.nextSn)))...)
+		line := "arrive"
+		for _, m := range szs {
+			payload := make([]byte, m)
+			copy(payload, fmt.Sprintf("msg%05d", x.nextSn))
+			b = append(b, seg(conv, kcp.IKCP_CMD_PUSH, x.nextSn, x.acked, payload)...)
 			x.nextSn++
+			line += fmt.Sprintf(" %d", m)
 		}
 		x.mc.ch <- dgram{b, x.remote}
-		return fmt.Sprintf("arrive %d", e.a), obs
+		return line, obs
 	case "open":
 		if x.s == nil || x.closed || x.rerr {
 			return "", ""
@@ -476,6 +526,7 @@ func (x *runner) do(e event) (line, obs string) {
 			return "", ""
 		}
 		x.rcell, x.rchg = e.a, x.nowMs()
+		x.chgSeq['r'] = x.seq
 		x.noteChange('r', e.a)
 		x.s.SetReadDeadline(x.deadline(e.a))
 		return "setrd " + dl(e.a), obs
@@ -484,6 +535,7 @@ func (x *runner) do(e event) (line, obs string) {
 			return "", ""
 		}
 		x.wcell, x.wchg = e.a, x.nowMs()
+		x.chgSeq['w'] = x.seq
 		x.noteChange('w', e.a)
 		x.s.SetWriteDeadline(x.deadline(e.a))
 		return "setwd " + dl(e.a), obs
@@ -492,6 +544,7 @@ func (x *runner) do(e event) (line, obs string) {
 			return "", ""
 		}
 		x.rcell, x.rchg, x.wcell, x.wchg = e.a, x.nowMs(), e.a, x.nowMs()
+		x.chgSeq['r'], x.chgSeq['w'] = x.seq, x.seq
 		x.noteChange('r', e.a)
 		x.noteChange('w', e.a)
 		x.s.SetDeadline(x.deadline(e.a))
@@ -501,6 +554,7 @@ func (x *runner) do(e event) (line, obs string) {
 			return "", ""
 		}
 		x.lcell, x.lchg = e.a, x.nowMs()
+		x.chgSeq['a'] = x.seq
 		x.noteChange('a', e.a)
 		x.l.SetReadDeadline(x.deadline(e.a))
 		return "setld " + dl(e.a), obs
@@ -565,6 +619,7 @@ func (x *runner) do(e event) (line, obs string) {
 }
 
 func (x *runner) event(e event) {
+	x.seq++
 	line, obs := x.do(e)
 	if line == "" {
 		x.o.Count("skipped:" + e.op)
@@ -613,6 +668,7 @@ func (x *runner) body() {
 		x.cs = append(x.cs, &caller{kind: k, changedAt: -1})
 	}
 	x.rchg, x.wchg, x.lchg = -1, -1, -1
+	x.chgSeq = map[byte]int{}
 	synctest.Wait()
 
 	x.lastAdv = -1
